@@ -145,7 +145,7 @@ def check_cli(job):
         if r["status"] != 0:
             msgs.append(f"error: run failed: {r['exc'] or r['stdout'][-200:]}")
         else:
-            page = box.files("work/out")["m.rst"]
+            page = box.page("work/out", "m.rst")
             sigs = {b.arg.split("(")[0].strip(): b.arg for b in rstobs.Page(page).entries()}
             for n, d in enumerate(CLI_DOCS):
                 want = trigger in d
@@ -181,7 +181,7 @@ def check_cli_strip(job):
         if r["status"] != 0:
             msgs.append(f"error: run failed: {r['exc'] or r['stdout'][-200:]}")
         else:
-            page = box.files("work/out")["m.rst"]
+            page = box.page("work/out", "m.rst")
             want = " ".join(_re.sub(pat, "", p) for p in params)
             for nm in ("copy_value", "copy_mac"):
                 sig = [b.arg for b in rstobs.Page(page).entries() if b.arg.startswith(nm + "(")]
